@@ -571,7 +571,7 @@ def simulate(plan, tier_lines=12, per_line=False):
             viols = []
             if o.kind in ("budget", "timeout"):
                 bump(stats, "nonterminating_commands")
-                history.append({"cmd": _cfg(cmd), "outcome": o.brief(), "sha": digest_of(after)})
+                history.append({"cmd": _cfg(cmd), "outcome": o.brief(), "sha": digest_of(after), "key": o.key()})
                 world.write_files({"m.py": before})
                 break
             if o.ok:
@@ -594,7 +594,7 @@ def simulate(plan, tier_lines=12, per_line=False):
             for x in viols:
                 x["detail"] = "cmd %d %s: %s" % (ci, _cfg(cmd), x["detail"])
             res.violations += viols
-            history.append({"cmd": _cfg(cmd), "outcome": o.brief(), "sha": digest_of(after)})
+            history.append({"cmd": _cfg(cmd), "outcome": o.brief(), "sha": digest_of(after), "key": o.key()})
             stats["world_states"].append(digest_of(after))
             if faulted and cp is not None:
                 forced = plan.get("force_fault")
@@ -607,7 +607,7 @@ def simulate(plan, tier_lines=12, per_line=False):
     finally:
         world.destroy()
     res.trace = {"kind": "c07-plan", "plan": plan, "files": {"m.py": src}, "history": history}
-    res.digest = digest_of(history)
+    res.digest = digest_of([[h["cmd"], h["key"], h["sha"]] for h in history])
     res.nontrivial = (rewrote or bool(stats["faults_fired"])) and any(probe.values())
     res.sample = {"source": src[:1500], "history": history}
     return res
